@@ -792,3 +792,38 @@ func throughParam(c *Ctx, v ssa.Value) ssa.Value {
 	}
 	return v
 }
+
+// paramReaches: v is target, or a parameter (chain) whose single call site passes target.
+func paramReaches(c *Ctx, v, target ssa.Value) bool {
+	for k := 0; k < 4; k++ {
+		if v == target {
+			return true
+		}
+		p, ok := v.(*ssa.Parameter)
+		if !ok {
+			return false
+		}
+		fn := p.Parent()
+		idx := -1
+		for i, q := range fn.Params {
+			if q == p {
+				idx = i
+			}
+		}
+		var arg ssa.Value
+		n := 0
+		for _, g := range c.P.AllRepoFuncs() {
+			eachInstr(g, func(i ssa.Instruction) {
+				if ci, ok := i.(ssa.CallInstruction); ok && ci.Common().StaticCallee() == fn && idx < len(ci.Common().Args) {
+					n++
+					arg = ci.Common().Args[idx]
+				}
+			})
+		}
+		if n != 1 || arg == nil {
+			return false
+		}
+		v = arg
+	}
+	return false
+}
